@@ -105,6 +105,59 @@ def run(tier):
         nwords = int(m.group(1)) if m else None
     ck.anchor(nwords is not None, "ChunkBitmask.bits is [u64; N]")
     need_caller_check = set()
+
+    def field_upper_bound(fx_, f_, op):
+        """C if `op` reads a struct field that every construction of the struct sets to `min(_, C)` / a constant <= C
+        and nothing else writes"""
+        pf = [e for e in op[1][1] if isinstance(e, list) and e[0] == "f"]
+        if not pf:
+            return None
+        adt, fname = pf[-1][3], pf[-1][2]
+        best = None
+        nbuild = 0
+        import arraylen
+        for g in fx_.fns.values():
+            if g.derived:
+                continue
+            for bl in g.blocks:
+                for s_ in bl["s"]:
+                    if s_[0] != "a":
+                        continue
+                    # direct writes to the field anywhere else: no invariant
+                    wf = [e for e in s_[1][1] if isinstance(e, list) and e[0] == "f"]
+                    if wf and wf[-1][3] == adt and wf[-1][2] == fname:
+                        return None
+                    if s_[2][0] == "agg" and isinstance(s_[2][1], dict) and s_[2][1].get("p") == adt:
+                        names = s_[2][1].get("fields") or []
+                        if fname not in names:
+                            return None
+                        nbuild += 1
+                        o = s_[2][2][names.index(fname)]
+                        b = None
+                        for org in arraylen.origins(g, o):
+                            if org[0] == "const":
+                                try:
+                                    v = int(str(org[1]).split("'")[-2]) if "'" in str(org[1]) else None
+                                except ValueError:
+                                    v = None
+                                b = max(b, v) if (b is not None and v is not None) else v
+                            elif org[0] == "call":
+                                tt = g.blocks[org[1]]["t"]
+                                if tt[1].get("d", "").endswith(("::min", "Ord::min")) and len(tt[2]) == 2:
+                                    cs = [c10.const_bound(fx_, g, a) for a in tt[2]]
+                                    cs = [c for c in cs if c is not None]
+                                    if not cs:
+                                        return None
+                                    b = max(b, min(cs)) if b is not None else min(cs)
+                                else:
+                                    return None
+                            else:
+                                return None
+                        if b is None:
+                            return None
+                        best = max(best, b) if best is not None else b
+        return best if nbuild else None
+    c10.FIELD_UPPER_BOUND = field_upper_bound
     for f in gcf:
         guards = None
         for bi, t in f.calls():
@@ -139,6 +192,7 @@ def run(tier):
             if not ok:
                 ck.finding("O2.bitmap-index", "O2.bitmap-index/%s" % f.path, F.short_span(t[6]),
                            "`%s`: unchecked bitmap access whose index is not provably < %s (%s)" % (f.path, nwords, why))
+    c10.FIELD_UPPER_BOUND = None
     # callers of set/get
     for (callee, param, sh) in sorted(need_caller_check):
         for f in gcf:
@@ -335,6 +389,8 @@ def run(tier):
                 if not ok:
                     ck.finding("O7.pooled-roots", "O7.pooled-roots/" + f.path, F.short_span(t[6]), "`%s` pushes a slot onto the mark stack without the pooled check" % f.path)
     ck.assume("internal Space methods run while the arena is alive (self is the Space)")
+    import floorcount
+    floorcount.rule(fx, ck)
     return ck.finish()
 
 
